@@ -162,4 +162,48 @@ mod c19 {
         println!("VERIF-B-SAMPLE violation classes this run: {:?}", counts);
         println!("VERIF-B unit=store test=c19_referenced_manifest_walk_all_small_graphs evaluations={evals} nontrivial={nontrivial} exhaustive={} domain=every directed ingredient graph on 1..=3 manifests (all edge subsets, optional dangling reference) and on 4 manifests ({}), last manifest active; one chain of MAX_INGREDIENT_DEPTH+1", thorough, if thorough { "all 65536" } else { "every 7th of 65536" });
     }
+
+    // ---- C28 (Engine B): which manifests are selected for an OCSP request at ingredient time
+    #[test]
+    fn c28_ocsp_label_selection_all_settings() {
+        use crate::settings::{builder::OcspFetchScope, Settings};
+        let mut evals = 0usize;
+        let mut nontrivial = 0usize;
+        let mut viol = 0usize;
+        for n in 1..=3usize {
+            let edges: Vec<Vec<usize>> = (0..n).map(|i| if i == 0 { vec![] } else { vec![i - 1] }).collect();
+            let (mut store, labels) = graph_store(n, &edges);
+            for set_provenance in [false, true] {
+                if set_provenance {
+                    if let Some(c) = store.get_claim(&labels[n - 1]).cloned() {
+                        store.set_provenance_path(&c);
+                    }
+                }
+                for fetch in [None, Some(OcspFetchScope::All), Some(OcspFetchScope::Active)] {
+                    for should_override in [None, Some(false), Some(true)] {
+                        let mut s = Settings::default();
+                        s.builder.certificate_status_fetch = fetch;
+                        s.builder.certificate_status_should_override = should_override;
+                        let got = store.get_manifest_labels_for_ocsp(&s);
+                        evals += 1;
+                        if fetch.is_some() && should_override.is_some() {
+                            nontrivial += 1;
+                        }
+                        let ok = match (fetch, should_override) {
+                            (None, _) | (_, None) => got.is_empty(),
+                            (Some(OcspFetchScope::Active), _) => got.len() <= 1 && got.iter().all(|l| Some(l.clone()) == store.provenance_label()),
+                            (Some(OcspFetchScope::All), _) => got.iter().all(|l| labels.contains(l)),
+                        };
+                        if !ok {
+                            viol += 1;
+                            if viol <= 3 {
+                                println!("VERIF-B-VIOLATION key=ocsp_labels.selected_without_configuration input=claims={n} provenance_set={set_provenance} certificate_status_fetch={fetch:?} certificate_status_should_override={should_override:?} -> {got:?}");
+                            }
+                        }
+                    }
+                }
+            }
+        }
+        println!("VERIF-B unit=store test=c28_ocsp_label_selection_all_settings evaluations={evals} nontrivial={nontrivial} exhaustive=true domain=stores with 1..=3 manifests (with / without an active manifest) x certificate_status_fetch in {{None, All, Active}} x certificate_status_should_override in {{None, false, true}}; violations={viol}");
+    }
 }
